@@ -4,13 +4,13 @@ ENTRY = {
                 "Add / SetURL / Inject(config file) / Refresh / Remove plus the environment step OwnerMutatesItsCopy (the caller overwrites the pattern slice it passed to New and the copy from WriteDiskConfig; the patterns in force stay those configured at start) whose complete state graph over a small location set is checked by TLC "
                 "(all histories; invariants: only clean absolute paths matching a configured pattern may be opened, nothing without patterns, "
                 "only the named file, no foreign scheme, spelling-independence). In 'gen' mode TLC prints one vector per (pattern list, location): "
-                "24 pattern lists (exact, *, ?, [..], multi-star, pattern with '..', relative pattern) x ~6250 locations (absolute spellings up to 5 segments over "
-                "names, '..', '.', empty segments; relative spellings; http/https/file/ftp URL-looking strings) = ~150000 vectors with the sets of paths that "
+                "24 pattern lists (exact, *, ?, [..], multi-star, pattern with '..', relative pattern) x ~6300 locations (absolute spellings up to 5 segments over "
+                "names, '..', '.', empty segments; relative spellings; http/https/file/ftp URL-looking strings; siblings of the pattern directory whose names only begin like it; locations inside the server's own data directory) = ~151000 vectors with the sets of paths that "
                 "add_url, set_url, loading from the configuration and a following refresh may open. Each vector is replayed into a real DNSFilter through the "
                 "registered HTTP handlers (POST add_url, set_url, refresh; unvalidated list in Config.Filters) on a scratch tree of sentinel files; opens are observed "
-                "with inotify IN_OPEN, by sentinel rules in the stored lists and by sentinel domains blocked by the rebuilt engine. Quick replays a seeded ~9% sample "
-                "(one entry point each), thorough every vector through all three entry points. History dependence: SafePath.walk.cfg prints the 151512 edges of the "
-                "state graph over (patterns, list table); they are covered by walks of up to 40 steps on one live instance each (quick: 20000 steps, thorough: all edges), "
+                "with inotify IN_OPEN, by sentinel rules in the stored lists and by sentinel domains blocked by the rebuilt engine. Quick replays a seeded ~7% sample "
+                "(one entry point each), thorough every vector through all three entry points. History dependence: SafePath.walk.cfg prints the 183024 edges of the "
+                "state graph over (patterns, list table); they are covered by walks of up to 40 steps on one live instance each (quick: 12000 steps, thorough: all edges), "
                 "compared after every step, a disagreement being reproduced by re-running the walk's prefix on a fresh instance. Direction B: a seeded driver (random trees, odd names, random globs, "
                 "spellings, 25-step histories incl. restarts) is recorded and validated by TraceSafePath.tla on real path segments; a rejected line is reproduced "
                 "by executing its epoch's logged history again up to that line.",
